@@ -23,8 +23,8 @@ import common
 from common import Check, main_wrapper
 
 KEY_PADDING = "total==max(addr+round_up(size,align))"
-KEY_RANDINT = "hillclimb:attempt_bottleneck_fix:randint(0,len(turn_list)-2):empty-range"
-# live-range sets on which the unchanged HillClimb allocator dies with ValueError under its own seed(1) generator
+# live-range sets on which HillClimb used to die with ValueError (random.randint(0, -1)) under its own seed(1)
+# generator before the repair recorded as `fixed:` in known_findings.txt; replayed on every run as regression cases
 HC_CRASH_CORPUS = [
     [(3, 4, 32, 128), (0, 2, 48, 64), (2, 3, 32, 32), (0, 1, 32, 64), (0, 2, 48, 32)],
     [(1, 2, 32, 32), (2, 3, 48, 16), (1, 2, 16, 32), (0, 1, 16, 32), (0, 0, 80, 32)],
@@ -590,8 +590,9 @@ def main():
             ck.count(f"outcome_{alloc}_{real.split(' ')[0]}")
             if out != real:
                 disagreements.append((ci, kind, req, out, real))
-            elif kind == "corr" and case[0] == "h" and real == "err:value" and case[2].get("tag") != "malformed":
-                hc_crashes.append((ci, req, notes_by_case.get(ci, "?")))
+            if kind == "corr" and case[0] == "h" and real.startswith("err:") and case[2].get("tag") != "malformed":
+                # a valid live-range set on which HillClimb raises instead of returning an allocation
+                hc_crashes.append((ci, req, real + " " + notes_by_case.get(ci, "")))
         elif kind == "vspec":
             f = parse_flags(out)
             want = "ok" if (f.get("overlap") == "1") else "err:alloc"
@@ -658,13 +659,11 @@ def main():
         ck.violation("Greedy/LinearAlloc total includes alignment padding of the size: total == max(addr + round_up(size, align)) "
                      "> highest end address", {"input": describe(ci), "spec_request": req[:2000]}, key=KEY_PADDING)
     for ci, req, site in sorted(hc_crashes, key=lambda x: len(x[1]))[:3]:
-        known_site = "attempt_bottleneck_fix" in site and "len(turn_list) - 2" in site
-        ck.count("hillclimb_valueerror_in_domain")
-        ck.violation("HillClimb raises ValueError (empty randint range) instead of returning an allocation; site: " + site,
-                     {"input": describe(ci), "request": req[:3000], "site": site,
-                      "replay": "hillclimb_allocation.allocate_live_ranges(lrs, max_iter, mem_limit) with the recorded draws"},
-                     key=KEY_RANDINT if known_site else None)
-    if disagreements and not spec_bad:
+        ck.count("hillclimb_exception_in_domain")
+        ck.violation("HillClimb raises an exception on a valid live-range set instead of returning an allocation: " + site,
+                     {"input": describe(ci), "request": req[:3000], "outcome": site,
+                      "replay": "hillclimb_allocation.allocate_live_ranges(lrs, max_iter, mem_limit) with the recorded draws"})
+    if disagreements and not spec_bad and not hc_crashes:
         disagreements.sort(key=lambda d: len(d[2]))
         ci, kind, req, out, real = disagreements[0]
         ck.violation("correspondence Model/Alloc.lean vs the real allocator broken on %d requests (kind %s)" % (len(disagreements), kind),
@@ -688,7 +687,7 @@ def main():
         "disagreements": len(disagreements),
         "spec_rejections": len(spec_bad),
         "padded_total_cases": len(padded_hits),
-        "hillclimb_valueerror_in_domain": len(hc_crashes),
+        "hillclimb_exception_in_domain": len(hc_crashes),
     }, assumptions=[
         "live-range names are distinct (equal names make the greedy order depend on set iteration order = object hashes; C14 territory)",
         "sizes >= 1, start <= end, alignments >= 1 inside the judged domain (storage_size() never returns 0); malformed inputs are compared "
